@@ -16,6 +16,7 @@ import os
 import random
 import re
 import shutil
+import signal
 import subprocess
 import sys
 import tempfile
@@ -394,6 +395,7 @@ class Stage:
     shard_size = 400
     tlc_timeout = 3600
     tlc_heap = "3g"
+    exec_time_limit: Optional[int] = None   # seconds allowed for one execute(); beyond it the case is skipped, never judged
 
     def inputs(self, ctx: Ctx) -> Iterable[Any]:
         raise NotImplementedError
@@ -412,14 +414,32 @@ class Stage:
         return {}
 
 
+class _TimeLimit(BaseException):
+    pass
+
+
+def _on_alarm(signum, frame):
+    raise _TimeLimit()
+
+
 def _exec_one(args):
     stage, inp = args
+    limit = getattr(stage, "exec_time_limit", None)
+    if limit:
+        signal.signal(signal.SIGALRM, _on_alarm)
+        signal.alarm(int(limit))
     try:
         return ("ok", stage.execute(inp))
+    except _TimeLimit:
+        # not a verdict: the call was abandoned, the case is reported as skipped with its reason
+        return ("ok", {"_skip": "execution-exceeded-%ds" % int(limit)})
     except MachineryError as e:
         return ("mach", str(e))
     except Exception:
         return ("exc", traceback.format_exc())
+    finally:
+        if limit:
+            signal.alarm(0)
 
 
 def execute_all(stage: Stage, inputs: List[Any], procs: int = NCPU) -> List[Tuple[str, Any]]:
